@@ -60,7 +60,10 @@ def handle (op : String) (j : Json) : Option Json :=
       let rs ← parseRuns j
       let ok ← getBool? j "ok"
       let pinned := (getBool? j "pinned").getD false
-      match (if pinned then csFinalPinned rs ok else csFinal rs ok) with
+      let attached : Option (List Bool) := (getArr? j "attached").bind (fun a => a.toList.mapM asBool?)
+      match (if pinned then csFinalPinned rs ok else match attached with
+              | some a => csFinalOf a rs ok
+              | none => csFinal rs ok) with
       | .ok reqs => pure (Json.mkObj [("reqs", Json.arr (reqs.map reqJson).toArray)])
       | .error e => pure (Json.mkObj [("crash", Json.str e)])
   | "c18.cs_incr" => do
